@@ -4,7 +4,7 @@ wt=$1; prop=${2:-$(echo $wt | cut -c1-3)}
 SEEDROOT=${SEEDROOT:-/tmp/seed5}; export SEEDROOT
 cd /verif
 timeout 1500 sh tools/confirm_seed.sh $wt
-for v in a b c d; do
+for v in a b c d e; do
   d=$SEEDROOT/$wt/_seed/$v
   [ -f $d/patch.diff ] || continue
   echo "--- $wt/$v: $(grep -c . $d/patch.diff) diff lines; confirm: $(tr '\n' ' ' < $d/confirm.txt | cut -c1-200)"
